@@ -15,7 +15,8 @@ EXPLANATION = ('Constructors are executed with symbolic parameters: every path e
                'messages themselves) yet reaches a non-raising path; raising paths must raise ValueError. Time/space domain '
                'guards are explored the same way. For in-domain inputs of the closed-form solvers the definedness side '
                'conditions of every returned field (denominator != 0, root/log arguments, power bases) are ASSERTED and z3 '
-               'searches an admissible input that breaks one.')
+               'searches an admissible input that breaks one.  Blake: the fifteen elastic-parameter pairs (positive-definite material or '
+               'ValueError).')
 BOUNDS = ['integer-valued parameters (geometry, model names) enumerated over a few valid and invalid values',
           'restrictions whose text is the code\'s own error message are strict (acceptance of a violating value is the violation); '
           'the few entries read from prose only (marked lenient: Cog19 "strictly negative") are reported only if the accepted object '
